@@ -23,6 +23,10 @@ func runC11(w *World, r *Report) {
 	defer r.importRules(runC19, "C11-", map[string]bool{"C19-R9": true})
 	// stopping a collection's reader finds the handler through the mapping key (a paused task has no active readers)
 	defer r.importRules(runC02, "C11-", map[string]bool{"C02-R8": true})
+	// delete and reload find a task's share of the per-target resources under the key create used (C10-R10); a pause
+	// always tries the persisted update and the release, whatever the in-memory state says (C06-R6)
+	defer r.importRules(runC10, "C11-", map[string]bool{"C10-R10": true})
+	defer r.importRules(runC06, "C11-", map[string]bool{"C06-R6": true})
 	defer c11ReadersAfterState(w, r)
 	r.Rule("C11-R1", "no busy wait on a close-only channel", "in every blocking select inside a loop, a case that receives from a struct{} channel must leave the loop", 8)
 	r.Rule("C11-R2", "reference counting is paired", "Inc next to taskQuitFuncs.Insert; Dec dominated by GetAndRemove==ok; entityQuitFunc + delete(entity) dominated by refCnt.Load()==0 under the replicateEntityMap lock; no error return after Inc in startInternal", 6)
